@@ -61,7 +61,7 @@ def nets(tier, seed):
     yield N("H-C-O", [(["H", "H"], ["H2"]), (["C", "O"], ["CO"]), (["CO", "H"], ["HCO"]), (["H", "O"], ["OH"]), (["OH", "H"], ["H2O"]),
                       (["C", "H"], ["CH"]), (["C+", "e-"], ["C"]), (["H+", "e-"], ["H"])])
     yield N("isotopologues", [(["H", "D"], ["HD"]), (["H2", "D"], ["HD", "H"]), (["H", "H"], ["H2"]), (["HD", "H+"], ["H2D+"]),
-                              (["H2D+", "e-"], ["H", "H", "D"])])
+                              (["H2D+", "e-"], ["H", "H", "D"]), (["D", "D"], ["D2"]), (["D2", "H+"], ["HD2+"]), (["HD2+", "e-"], ["D2", "H"])])
     yield N("ice", [(["CO"], ["#CO"]), (["C", "O"], ["CO"]), (["H", "H"], ["H2"]), (["#CO"], ["CO"]), (["H"], ["#H"]), (["#H", "#H"], ["#H2"]), (["#H2"], ["H2"])])
     yield N("repeated-element-formula", [(["CH3OH"], ["CH3", "OH"]), (["C", "H"], ["CH"]), (["O", "H"], ["OH"]), (["CH3", "H"], ["CH4"]), (["H", "H"], ["H2"])])
     yield N("large-molecules", [(["C", "C10H2"], ["C11", "H2"]), (["C11", "H"], ["HC11"]), (["C6H12", "O"], ["C6H11", "OH"]), (["H", "H"], ["H2"]), (["HC11", "O"], ["C10H", "CO"])])
@@ -129,10 +129,25 @@ def check(tier, seed):
                         V(f"element-total: GetElementAbund({n_}) = {float(got_t):.6g}, count-weighted sum of the abundances = {float(want_t):.6g}")
             # reference ratios: perturb the current ones
             H = elem_abund(y, ints["IDX_ELEM_H"])
+            # the value the generated sources normalise by: the rendered GetHNuclei (preprocessed with the rendered macros)
+            try:
+                import z3 as _z3
+                from pyvc import cmini as _cm
+                from .renorm import _preprocess
+                hb = _preprocess(function_body(phys, r"double\s+GetHNuclei\s*\(\s*double\s*\*\s*y\s*\)\s*\{"), set(mac))
+                ex_ = _cm.Exec({k: _z3.IntVal(v) for k, v in ints.items()},
+                               {"GetElementAbund": lambda e_, st_, args: _z3.RealVal(str(elem_abund(y, _z3.simplify(e_.ev(args[1], st_)).as_long())))}, max_unroll=0)
+                st_ = ex_.run(_cm.parse_body(_cm.strip(hb)), _cm.State({}, {"y": _z3.K(_z3.IntSort(), _z3.RealVal(0))}))
+                rv = _z3.simplify(st_.retval)
+                Hgen = Fraction(rv.numerator_as_long(), rv.denominator_as_long())
+            except Exception:
+                Hgen = H
+            if Hgen != H:
+                V(f"hydrogen-nuclei: the generated GetHNuclei gives {float(Hgen):.6g}, the total of element H is {float(H):.6g} (the reference ratios are taken relative to element H)")
             for trial in ("perturbed", "identity"):
                 cur = [elem_abund(y, ints[f"IDX_ELEM_{n}"]) / H for n in names]
                 ref = cur[:] if trial == "identity" else [c * Fraction(rnd.randint(2, 9), rnd.randint(2, 9)) if n != "H" else c for c, n in zip(cur, names)]
-                env = ceval.Env(arrays={"ab": lambda i: y[i]}, ints=ints, idents={"Hnuclei": H})
+                env = ceval.Env(arrays={"ab": lambda i: y[i]}, ints=ints, idents={"Hnuclei": Hgen})
                 M = [[Fraction(0)] * ne for _ in range(ne)]
                 ok = True
                 pat = r"IJth\(A,\s*(\w+),\s*(\w+)\)" if backend[0] == "cvode" else r"\bA\((\w+),\s*(\w+)\)"
@@ -173,6 +188,9 @@ def check(tier, seed):
                 for i, s in enumerate(species):
                     if s.is_electron and newy[i] != y[i]:
                         V("electrons-changed")
+                if trial == "identity" and newy != y:
+                    k_ = next(i for i in range(len(y)) if newy[i] != y[i])
+                    V(f"not-identity: the ratios already match but {species[k_].name} is rescaled by {float(newy[k_] / y[k_]):.9g}")
                 if comp is None:
                     continue
                 # totals with the independent composition
